@@ -26,9 +26,10 @@ def env_stats(scens, streams):
 
 PROPS = {
     'C01': dict(
-        modules=['SimProc.Props.C01', 'SimProc.Props.Facts'],
-        prop_files=['SimProc/Props/C01.lean', 'SimProc/Props/Facts.lean'],
-        families=[('env', 300, 6000)],
+        modules=['SimProc.Props.C01', 'SimProc.Props.Facts', 'SimProc.Props.C01W'],
+        prop_files=['SimProc/Props/C01.lean', 'SimProc/Props/Facts.lean', 'SimProc/Props/C01W.lean'],
+        # whole simulations too: C01W lifts the queue theorems to every reachable world
+        families=[('env', 300, 6000), ('floor', 40, 800), ('floorm', 40, 800)],
         impl_only_families=[('envdec', 150, 3000)],
         tags=ENV_TAGS,
         monitors=M.MONITORS['C01'],
@@ -42,9 +43,10 @@ PROPS = {
                      'times on the dyadic grid k/16 (exact float arithmetic)'],
     ),
     'C07': dict(
-        modules=['SimProc.Props.C07'],
-        prop_files=['SimProc/Props/C07.lean'],
-        families=[('env', 300, 6000)],
+        modules=['SimProc.Props.C07', 'SimProc.Props.C01W'],
+        prop_files=['SimProc/Props/C07.lean', 'SimProc/Props/C01W.lean'],
+        # machines that are shut down / restored / fail pause, resume and cancel their own events
+        families=[('env', 300, 6000), ('floorm', 60, 1200), ('floorpf', 20, 400)],
         impl_only_families=[('envdec', 150, 3000)],
         tags=ENV_TAGS,
         monitors=M.MONITORS['C07'],
@@ -91,7 +93,7 @@ PROPS['C01']['exhaustive'] = [('envx', 4)]
 PROPS['C07']['exhaustive'] = [('envx', 4)]
 PROPS['C09'] = dict(
     exhaustive=[('rmx', 4)],
-    modules=['SimProc.Props.C09'], prop_files=['SimProc/Props/C09.lean'],
+    modules=['SimProc.Props.C09', 'SimProc.Props.C11W'], prop_files=['SimProc/Props/C09.lean', 'SimProc/Props/C11W.lean'],
     families=[('rm', 400, 8000)],
     tags=tags(*BASE, 'r', 'h', 'hsum', 'rec'),
     monitors=M.MONITORS['C09'],
@@ -106,7 +108,7 @@ PROPS['C09'] = dict(
 )
 PROPS['C10'] = dict(
     exhaustive=[('rmx', 4)],
-    modules=['SimProc.Props.C10', 'SimProc.Props.Facts'], prop_files=['SimProc/Props/C10.lean'],
+    modules=['SimProc.Props.C10', 'SimProc.Props.Facts', 'SimProc.Props.C11W'], prop_files=['SimProc/Props/C10.lean', 'SimProc/Props/C11W.lean'],
     families=[('rm', 400, 8000)],
     tags=tags(*BASE, 'wq', 'r'),
     monitors=M.MONITORS['C10'],
@@ -202,7 +204,7 @@ PROPS['C02'] = floor_prop(
      'rec': _c.only(('device_failure', 'supplied_new_part', 'received_part')), 'res': _c.only(('shut',))},
     ('rec device_failure', 'rec received_part'), 'non-trivial = at least one part was received; distinct by scenario text')
 PROPS['C03'] = floor_prop(
-    'C03', ['SimProc.Props.C03'], ['SimProc/Props/C03.lean'],
+    'C03', ['SimProc.Props.C03', 'SimProc.Props.C03W'], ['SimProc/Props/C03.lean', 'SimProc/Props/C03W.lean'],
     {'ev': None, 'now': None, 'ran': None, 'd': _c.fields('part', 'out', 'buf', 'wds', 'blk', 'down', 'wres', 'lvl')},
     ('d ',), 'implementation traces are produced with the deep-copy probe at every clock advance; non-trivial = a scenario '
              'in which some device waited for downstream space', runner='ProbeRunner',
@@ -215,21 +217,22 @@ PROPS['C04'] = floor_prop(
                             'non-trivial = at least one part reached a station',
     families=[('serial', 300, 6000)])
 PROPS['C05'] = floor_prop(
-    'C05', ['SimProc.Props.C05'], ['SimProc/Props/C05.lean'],
+    'C05', ['SimProc.Props.C05', 'SimProc.Props.C05W'], ['SimProc/Props/C05.lean', 'SimProc/Props/C05W.lean'],
     {'d': _c.only(('',), None), 'rec': _c.only(('level',))},
     ('rec level',), 'non-trivial = a buffer level changed')
 PROPS['C05']['tags']['d'] = lambda l: _c.fields('buf', 'lvl')(l) if ' buffer ' in l else None
 PROPS['C08'] = floor_prop(
-    'C08', ['SimProc.Props.C08'], ['SimProc/Props/C08.lean'],
+    'C08', ['SimProc.Props.C08', 'SimProc.Props.C08W'], ['SimProc/Props/C08.lean', 'SimProc/Props/C08W.lean'],
     {'p': _c.fields('hist', 'stack', 'kids'), 'd': _c.fields('coll', 'blk'), 'rec': _c.only(('received_part',))},
-    ('rec received_part',), 'non-trivial = a part was handed over')
+    ('rec received_part',), 'non-trivial = a part was handed over',
+    families=[('floor', 100, 2000), ('floorc', 50, 1000), ('floors', 100, 2000), ('floorg', 80, 1500), ('floorb', 40, 800)])
 PROPS['C11'] = floor_prop(
-    'C11', ['SimProc.Props.C11'], ['SimProc/Props/C11.lean'],
+    'C11', ['SimProc.Props.C11', 'SimProc.Props.C11W'], ['SimProc/Props/C11.lean', 'SimProc/Props/C11W.lean'],
     {'d': _c.fields('part', 'resv', 'wres', 'down'), 'r': None, 'rec': _c.only(('resource_update',))},
     ('rec resource_update',), 'non-trivial = a pool changed',
     families=[('floorp', 120, 2500), ('floorm', 80, 1500), ('floorc', 60, 1000)])
 PROPS['C13'] = floor_prop(
-    'C13', ['SimProc.Props.C13'], ['SimProc/Props/C13.lean'],
+    'C13', ['SimProc.Props.C13', 'SimProc.Props.C06W'], ['SimProc/Props/C13.lean', 'SimProc/Props/C06W.lean'],
     {'d': _c.fields('part', 'out', 'down', 'up', 'use'), 'res': _c.only(('shut', 'restored', 'hook')),
      'rec': _c.only(('device_failure',)), 'now': None},
     ('rec device_failure', 'res shut'), 'implementation traces are produced with the deep-copy probe (a finished part kept through '
@@ -237,21 +240,22 @@ PROPS['C13'] = floor_prop(
     families=[('floorm', 120, 2500), ('floor', 80, 1500), ('floorc', 40, 800)])
 PROPS['C13']['monitors'] = M.MONITORS['C13'] + M.MONITORS['C03']
 PROPS['C15'] = floor_prop(
-    'C15', ['SimProc.Props.C15', 'SimProc.Props.Facts'], ['SimProc/Props/C15.lean'],
+    'C15', ['SimProc.Props.C15', 'SimProc.Props.Facts', 'SimProc.Props.C15W'], ['SimProc/Props/C15.lean', 'SimProc/Props/C15W.lean'],
     {'rec': None, 'd': _c.fields('lvl', 'prod', 'recv'), 'r': None, 'res': _c.only(('shut',))},
     ('rec ',), 'non-trivial = records were written',
     families=[('floor', 100, 2000), ('floors', 100, 2000), ('maint', 60, 1000), ('sched', 60, 1000), ('rm', 60, 1000)])
 PROPS['C16'] = floor_prop(
-    'C16', ['SimProc.Props.C16'], ['SimProc/Props/C16.lean'],
+    'C16', ['SimProc.Props.C16', 'SimProc.Props.C16W', 'SimProc.Props.C15W'], ['SimProc/Props/C16.lean', 'SimProc/Props/C16W.lean', 'SimProc/Props/C15W.lean'],
     {'d': _c.fields('val', 'vh', 'cost', 'rval'), 'm': _c.fields('val', 'vh'), 'p': _c.fields('v'),
      'rec': _c.only(('supplied_new_part', 'received_part'))},
     ('d ',), 'the runner also checks value bookkeeping on the live objects after every event; non-trivial = a value changed',
     runner='ValueRunner', families=[('floor', 120, 2500), ('floors', 80, 1500), ('maint', 60, 1000)],
     nontrivial=lambda st, s: any(l.startswith(('d ', 'm ')) and ' vh=0 ' not in l + ' ' for l in st))
 PROPS['C17'] = floor_prop(
-    'C17', ['SimProc.Props.C17'], ['SimProc/Props/C17.lean'],
-    {'p': _c.fields('kids'), 'rec': _c.only(('received_part',))},
-    ('rec received_part',), 'non-trivial = a part was handed over')
+    'C17', ['SimProc.Props.C17', 'SimProc.Props.C17W'], ['SimProc/Props/C17.lean', 'SimProc/Props/C17W.lean'],
+    {'p': _c.fields('kids', 'hist'), 'rec': _c.only(('received_part',))},
+    ('rec received_part',), 'non-trivial = a part was handed over',
+    families=[('floorb', 120, 2500), ('floor', 80, 1500), ('floorc', 40, 800), ('floors', 60, 1200)])
 PROPS['C17']['tags']['d'] = lambda l: _c.fields('part', 'out', 'inprog')(l) if ' batcher ' in l else None
 PROPS['C20'] = dict(
     modules=['SimProc.Props.C20', 'SimProc.Props.Facts'], prop_files=['SimProc/Props/C20.lean'],
@@ -285,7 +289,7 @@ PROPS['C14'] = dict(
 )
 
 PROPS['C06'] = floor_prop(
-    'C06', ['SimProc.Props.C06'], ['SimProc/Props/C06.lean'],
+    'C06', ['SimProc.Props.C06', 'SimProc.Props.C06W'], ['SimProc/Props/C06.lean', 'SimProc/Props/C06W.lean'],
     {'ev': None, 'now': None, 'ran': None, 'd': _c.fields('part', 'out', 'down', 'cyc', 'off'),
      'rec': _c.only(('received_part', 'produced_part', 'device_failure', 'supplied_new_part'))},
     ('rec received_part',), 'non-trivial = a part was accepted by a device')
